@@ -513,7 +513,7 @@ func runC17(c *fw.Ctx, cs fw.Case) {
 				continue
 			}
 			n0, n1 := branching(b0, cfg.limit)
-			depth := depthFor(n0, n1, 3000, 5)
+			depth := ttSafeDepth(h, depthFor(n0, n1, 3000, 5))
 			what := fmt.Sprintf("%d concurrent searches, config %s depth %d table %s %s (%s)", k, cfg.name, depth, tname, histDesc(h), tag)
 			s0, _, _ := cfg.mk()
 			nb, _ := boardOf(h)
